@@ -8,6 +8,7 @@
    interleaving.  n = 0 is allowed (nothing is ever let in), so n >= 1 is not needed. *)
 From Coq Require Import List ZArith Bool Arith.
 From GZ Require Import Lib.Sched C05.Model C05.Proofs C05.Proofs2.
+From GZ Require C05.Check C05.ProofsCheck.
 Import ListNotations.
 
 (* ---- Limit / TimeoutLimit / MaxConnsHandler ---- *)
@@ -367,6 +368,22 @@ Theorem pool_create_panic_counts_nothing : forall s t th,
              Some (mkPT PIdle (pscript th) (S (popi th)) (pheld th) (pres th ++ [(-2)%Z])).
 Proof. exact pool_create_panic_l. Qed.
 Print Assumptions pool_create_panic_counts_nothing.
+
+(* The judgement is not an opaque oracle: whenever [prop_ok1] (Check.v) accepts the log observed
+   on the implementation for a worker pool / WorkerGroup case, then after EVERY prefix of that
+   log the number of user functions entered and not yet left - counted from the executor's own
+   events inside the function - is at most the configured capacity. *)
+Theorem monitor_sound_workers : forall c,
+  Check.prop_ok1 c = true ->
+  match Check.ckind c with
+  | Check.KWP _ _ _ jn _ =>
+    forall p q, Check.clog c = p ++ q -> (ProofsCheck.inside_after p <= Z.of_nat jn)%Z
+  | Check.KWG n _ =>
+    forall p q, Check.clog c = p ++ q -> (ProofsCheck.inside_after p <= Z.of_nat n)%Z
+  | _ => True
+  end.
+Proof. exact ProofsCheck.prop_ok_workers_sound. Qed.
+Print Assumptions monitor_sound_workers.
 
 (* ------------------------------------------------------------------ *)
 (* non-vacuity *)
